@@ -8,6 +8,7 @@ import (
 	"fmt"
 	"go/constant"
 	"go/token"
+	"go/types"
 	"strings"
 
 	"golang.org/x/tools/go/ssa"
@@ -97,8 +98,13 @@ func checkValueLookup(r *Run, prog *Program, a *Anchors, pfx string) {
 		r.Fail("unresolved-anchor", pfx+".lookup", "params", prog.pos(fn.Pos()), "value lookup does not have (datum, path, options) parameters")
 		return
 	}
-	pDatum := paramSym(fn.Params[0])
-	pOpt := paramSym(fn.Params[2])
+	dP, _, oP, optsResolved := a.lookupParams(prog)
+	if dP == nil || oP == nil {
+		r.Fail("unresolved-anchor", pfx+".lookup", "params", prog.pos(fn.Pos()), "value lookup does not have (datum, path, options) parameters")
+		return
+	}
+	pDatum := paramSym(dP)
+	pOpt := paramSym(oP)
 	ps := NewPathSim(prog)
 	ps.Inline = func(c *ssa.Function) bool {
 		// the helper that decides "is the parent a map" and any other unexported helper the lookup is split into
@@ -142,11 +148,16 @@ func checkValueLookup(r *Run, prog *Program, a *Anchors, pfx string) {
 		errG := &Sym{K: sRes, A: g1.Res, Idx: 1}
 		valG := &Sym{K: sRes, A: g1.Res, Idx: 0}
 		// gateway configuration of the first lookup
-		if lf.getOpts == nil || len(lf.getOpts.Args) == 0 || lf.getOpts.Args[0].Key() != pOpt.Key() {
-			r.Check(pfx+".gateway-config", "options-source", pos, false, "the options used by the lookup are not getOpts(<own option parameter>)"+trail)
-			continue
+		var optsSym *Sym
+		if optsResolved {
+			optsSym = pOpt // the caller folded its option list already: the parameter is the option set
+		} else {
+			if lf.getOpts == nil || len(lf.getOpts.Args) == 0 || lf.getOpts.Args[0].Key() != pOpt.Key() {
+				r.Check(pfx+".gateway-config", "options-source", pos, false, "the options used by the lookup are not getOpts(<own option parameter>)"+trail)
+				continue
+			}
+			optsSym = lf.getOpts.Res
 		}
-		optsSym := lf.getOpts.Res
 		cfgOK := func(ev Event) (bool, string) {
 			d := receiverPointer(sm, ev)
 			if d == nil {
@@ -388,8 +399,14 @@ func checkLookupArgs(r *Run, prog *Program, a *Anchors, fn *ssa.Function, pfx st
 		var lookups []Event
 		first := true
 		firstIsLookup := false
+		var folded *Event
 		for _, ev := range sm.Events() {
+			ev := ev
 			if ev.Instr == nil || ev.Inlined {
+				continue
+			}
+			if ev.Callee == a.GetOpts && first && folded == nil {
+				folded = &ev // the caller folds its option list for the lookup: not yet "anything else"
 				continue
 			}
 			if ev.Callee == a.GetValue {
@@ -410,7 +427,28 @@ func checkLookupArgs(r *Run, prog *Program, a *Anchors, fn *ssa.Function, pfx st
 			n++
 		}
 		args := ev.Args
-		okA := len(args) == 3 && args[0].Key() == paramSym(fn.Params[1]).Key() && args[2].Key() == paramSym(fn.Params[2]).Key() && args[1].Key() == wantPath
+		okA := len(args) == len(a.GetValue.Params)
+		dP, pP, oP, resolved := a.lookupParams(prog)
+		if okA && dP != nil && pP != nil && oP != nil {
+			for i, q := range a.GetValue.Params {
+				switch q {
+				case dP:
+					okA = okA && args[i].Key() == paramSym(fn.Params[1]).Key()
+				case pP:
+					okA = okA && args[i].Key() == wantPath
+				case oP:
+					own := paramSym(fn.Params[len(fn.Params)-1])
+					if resolved && !types.Identical(fn.Params[len(fn.Params)-1].Type(), oP.Type()) {
+						// the lookup takes the folded option set: getOpts(<the caller's own list>)
+						okA = okA && folded != nil && folded.Res != nil && args[i].Key() == folded.Res.Key() && len(folded.Args) == 1 && folded.Args[0].Key() == own.Key()
+					} else {
+						okA = okA && args[i].Key() == own.Key()
+					}
+				}
+			}
+		} else {
+			okA = false
+		}
 		r.Check(pfx+".lookup-args", fn.Name(), prog.pos(ev.Instr.Pos()), okA, "the value lookup must be given the caller's datum, this expression's Selector.Path and the caller's options")
 	}
 	r.Check(pfx+".lookup-args", fn.Name()+":count", prog.pos(fn.Pos()), n >= 1 && paths > 0, fmt.Sprintf("%d value lookups in %s (expected one, before anything else)", n, fn.Name()))
